@@ -131,7 +131,7 @@ def replay(MIN, SIZE, J, with_close, schedule, label, model_lines=()):
             for j in range(J):
                 try:
                     pool.process(jobs[j])
-                except svr_threads.NoFreeWorkersError:
+                except svr_threads.PoolError:       # no free workers, or the pool is being closed: turned away
                     refused[j] = True
                 except Exception as x:
                     accept_err.append(x)
